@@ -5,7 +5,7 @@ CONSTANTS
   ValSeq <- Vals2
   Default = "d"
   MaxSections = 3
-  FirstPats <- PatsA
+  FirstPats <- First6
   Letters <- L3
   SortWildcards = TRUE
   WildcardsFirst = TRUE
